@@ -231,8 +231,14 @@ def signature_rewrite(ctx: Ctx, fi, fields: dict | None = None) -> None:
                 elif isinstance(a, ast.Name) and _partition_selects(fi, a.id) == "rest":
                     ok = True                  # the other half of a loop that sets the signatures aside
                 filters.append((n, ok))
-            if name == "add_relative_message" and n.args and isinstance(n.args[0], ast.Call) and call_method(n.args[0])[1] == "Message":
-                m = n.args[0]
+            arg0 = n.args[0] if n.args else None
+            if name == "add_relative_message" and isinstance(arg0, ast.Name):
+                # the event built into a local first (the constructor has no effects): its one definition
+                defs = [a for a in walk_local(fi.node) if isinstance(a, ast.Assign) and len(a.targets) == 1 and isinstance(a.targets[0], ast.Name) and a.targets[0].id == arg0.id]
+                if len(defs) == 1 and isinstance(defs[0].value, ast.Call) and call_method(defs[0].value)[1] == "Message" and defs[0].lineno < n.lineno and unconditional(defs[0]):
+                    arg0 = defs[0].value
+            if name == "add_relative_message" and isinstance(arg0, ast.Call) and call_method(arg0)[1] == "Message":
+                m = arg0
                 kws = {k.arg: k.value for k in m.keywords}
                 if enum_member(kws.get("message_type"), "MessageType") == "TIME_SIGNATURE" if kws.get("message_type") is not None else False:
                     idx = next((k.value for k in n.keywords if k.arg == "index"), n.args[1] if len(n.args) > 1 else None)
